@@ -37,6 +37,7 @@ pub fn vamm_cfg(rng: &mut Rng) -> DeployCfg {
             decimals: Some(dec),
             live: true,
             unwired: false,
+            foreign_fund: false,
         }],
         initial_ratio: 50_000,
         maint_ratio: 50_000,
